@@ -146,6 +146,41 @@ Proof.
     change (2 ^ 15) with 32768 in *; change (2 ^ 23) with 8388608 in *; change (2 ^ 31) with 2147483648 in *; lia.
 Qed.
 
+(** How far the receiver may already be AHEAD of a packet (largest opened number minus the
+    packet's number) for a packet number of [len] bytes to still decode: 2^(8 len - 1) - 2. *)
+Definition reorder_tolerance (len : Z) : Z := 2 ^ (len * 8) / 2 - 2.
+
+(** The sender-side guarantee with the true window: the receiver has processed at least what
+    the sender knows to be acknowledged, and has not run ahead of the packet by more than the
+    tolerance of the chosen length (overtaking by later packets is allowed up to there). *)
+Lemma decode_sender_reordered pn la largest :
+  0 <= pn < 2 ^ 62 -> -1 <= la -> pn - la <= 2 ^ 31 ->
+  la <= largest <= pn + reorder_tolerance (lenForHeader pn la) ->
+  decodePN (lenForHeader pn la) largest (truncatePN (lenForHeader pn la) pn) = pn.
+Proof.
+  intros Hpn Hla Hout Hlg. unfold reorder_tolerance in Hlg.
+  apply decode_window; try assumption; [apply lenForHeader_valid | lia |].
+  destruct (lenForHeader_cases pn la Hla) as [[Hn E] | [[Hn E] | [Hn E]]]; rewrite E in *;
+    [ change (2 ^ (2 * 8) / 2) with 32768 in * | change (2 ^ (3 * 8) / 2) with 8388608 in *
+    | change (2 ^ (4 * 8) / 2) with 2147483648 in * ];
+    change (2 ^ 15) with 32768 in *; change (2 ^ 23) with 8388608 in *; change (2 ^ 31) with 2147483648 in *; lia.
+Qed.
+
+(** one step further the decoder returns another number (the tolerance is exact) *)
+Lemma decode_beyond_tolerance pn la :
+  0 <= pn < 2 ^ 62 - 2 ^ 33 -> -1 <= la -> 2 ^ 32 <= pn ->
+  decodePN (lenForHeader pn la) (pn + reorder_tolerance (lenForHeader pn la) + 1) (truncatePN (lenForHeader pn la) pn) <> pn.
+Proof.
+  intros Hpn Hla Hbig. unfold reorder_tolerance.
+  apply decode_outside_window; [apply lenForHeader_valid | lia | | |].
+  - pose proof (lenForHeader_ge2 pn la) as Hl. assert (2 ^ (lenForHeader pn la * 8) / 2 <= 2 ^ 31).
+    { destruct (lenForHeader_valid pn la) as [E | [E | [E | E]]]; rewrite E; vm_compute; discriminate. }
+    change (2 ^ 62) with 4611686018427387904 in *. change (2 ^ 33) with 8589934592 in *. change (2 ^ 32) with 4294967296 in *. change (2 ^ 31) with 2147483648 in *. lia.
+  - destruct (lenForHeader_valid pn la) as [E | [E | [E | E]]]; rewrite E; change (2 ^ 32) with 4294967296 in *;
+      [change (2 ^ (1 * 8)) with 256 | change (2 ^ (2 * 8)) with 65536 | change (2 ^ (3 * 8)) with 16777216 | change (2 ^ (4 * 8)) with 4294967296]; lia.
+  - lia.
+Qed.
+
 (** * Generators *)
 
 (** [gaps_ok lo l]: every popped number is either the next unused one, unflagged, or the
